@@ -15,7 +15,7 @@ KEY_POOLS = {
     "camel": ["userId", "createdAt", "itemList", "ownerName", "isActive", "HTTPCode", "nodeRef", "subItems"],
     "kebab": ["user-id", "created-at", "x-value", "item-list"],
     "keyword": ["class", "list", "type", "from", "def", "dict", "date", "schema", "None", "pk", "field", "base_model",
-                "optional", "any", "union", "literal"],
+                "optional", "any", "union", "literal", "metadata", "registry", "fields", "copy", "json", "model_config"],
     "unicode": ["имя", "größe", "naïve", "数", "ключ"],
     "odd": ["1st", "9lives", "a b", "a.b", "_private", "__dunder__", "$ref", "@id", "x!", "0day", "00x", "2nd_", "_0", "$", "-"],
 }
